@@ -267,6 +267,9 @@ func (f *FS) RemoveAll(name string) error {
 	if err := f.fault("removeall", p); err != nil {
 		return err
 	}
+	if _, err := f.lookup(p); err == syscall.ENOTDIR {
+		return perr("unlinkat", name, err)
+	}
 	f.removeAll(p)
 	f.log(Mut{Kind: MRmAll, Path: p})
 	return nil
@@ -292,12 +295,31 @@ func (f *FS) Rename(oldname, newname string) error {
 	if err := f.fault("rename", op); err != nil {
 		return err
 	}
+	// os.Rename refuses an existing directory as target before calling the kernel
+	if t, terr := f.lookup(np); terr == nil && t.dir {
+		if _, oerr := f.lookup(op); oerr != nil {
+			return &os.LinkError{Op: "rename", Old: oldname, New: newname, Err: oerr}
+		}
+		if op != np {
+			return &os.LinkError{Op: "rename", Old: oldname, New: newname, Err: syscall.EEXIST}
+		}
+	}
+	// the kernel resolves both parent directories before looking at the last components
+	if err := f.parentOK(op); err != nil {
+		return &os.LinkError{Op: "rename", Old: oldname, New: newname, Err: err}
+	}
+	if err := f.parentOK(np); err != nil {
+		return &os.LinkError{Op: "rename", Old: oldname, New: newname, Err: err}
+	}
 	n, err := f.lookup(op)
 	if err != nil {
 		return &os.LinkError{Op: "rename", Old: oldname, New: newname, Err: err}
 	}
 	if err := f.parentOK(np); err != nil {
 		return &os.LinkError{Op: "rename", Old: oldname, New: newname, Err: err}
+	}
+	if n.dir && strings.HasPrefix(np, op+"/") {
+		return &os.LinkError{Op: "rename", Old: oldname, New: newname, Err: syscall.EINVAL}
 	}
 	if t, ok := f.nodes[np]; ok {
 		if t.dir != n.dir {
